@@ -13,7 +13,7 @@ import (
 func init() {
 	Registry["C15"] = C15
 	Metas["C15"] = Meta{
-		Explanation: "Decides the structural clauses of C15 for both constructors: (J1) the janitor goroutine is started only under a guard that implies a strictly positive value of the very config field its ticker is built from, and its ticker case calls DeleteExpired on the cache; (J2) the goroutine's closure captures only cells that cannot reach the outer wrapper object, and the wrapper allocation is used only to embed the inner object, as SetFinalizer's first argument and as the returned interface value - so the wrapper stays collectable while the janitor runs; (J3) runtime.SetFinalizer(wrapper, fn) is executed on every path to the constructor's return, fn has no free variables and closes the inner object's stop channel, and the constructor returns the wrapper; (J4) the janitor loop's select receives from that same stop channel and that case leaves the goroutine; the channel is created by the constructor and closed only by the finalizer; (J5) nothing else in the module calls DeleteExpired or starts goroutines. NOT decided: 'within a bounded number of intervals', GC / finalizer timing, goroutine counts.",
+		Explanation: "Decides the structural clauses of C15 for both constructors: (J1) the janitor goroutine is started only under a guard that implies a strictly positive value of the very config field its ticker is built from, its ticker case calls DeleteExpired on the cache (or a pure delegate), and the interval reaches that guard as the caller gave it (option functions and the NewDefault family store their argument on every path); (J2) the goroutine's closure captures only cells that cannot reach the outer wrapper object, and the wrapper allocation is used only to embed the inner object, as SetFinalizer's first argument and as the returned interface value - so the wrapper stays collectable while the janitor runs; (J3) runtime.SetFinalizer(wrapper, fn) is executed on every path to the constructor's return, fn has no free variables and closes the inner object's stop channel, and the constructor returns the wrapper; (J4) the janitor loop's select receives from that same stop channel and that case leaves the goroutine; the channel is created by the constructor and closed only by the finalizer; (J5) nothing else in the module calls DeleteExpired or starts goroutines. NOT decided: 'within a bounded number of intervals', GC / finalizer timing, goroutine counts.",
 		Rule:        "one obligation per (rule, constructor | closure | call site); non-trivial = decided from dominance, capture or use-set queries on SSA",
 		Assumptions: []string{"runtime.SetFinalizer runs fn when the wrapper becomes unreachable", "time.Ticker delivers ticks"},
 	}
@@ -307,6 +307,7 @@ func C15(r *Run) *core.Report {
 	rep.MinCount("C15.J1", "janitor go statements", nGo, 2)
 	// the interval the guard tests is the caller's: the NewDefault family hands its arguments on unconditionally
 	defaultCtorFlow(r, rep, "C15.J1")
+	optionFlow(r, rep, "C15.J1")
 	// J4/J5 module-wide
 	for _, f := range r.P.Funcs {
 		if f.Pkg != r.P.Cache {
